@@ -128,6 +128,13 @@ def run(pid, tier, seed, replay=None):
     wc.write_case_file(cases, cf)
     logs = wc.run_drivers(cf, pid, timeout=3000 if quick else 7000)
     V.extra["driver"] = {b: s[1] for b, s in logs.items()}
+    for b, s in logs.items():
+        if s[1].get("inconclusive"):
+            log("NOTE: driver build %s stopped by the check's own wall-clock limit (%ss): its remaining cases are inconclusive" % (b, s[1]["timeout_s"]))
+            V.assumptions.append("INCONCLUSIVE: the %s build pass hit the check's own wall-clock limit; only the results logged until then were judged" % b)
+        elif s[1].get("done", s[1].get("cases", 0)) < s[1].get("cases", 0):
+            V.assumptions.append("the %s build pass was stopped after %d dying cases (restart cost bounded); the cases behind case %d were not replayed in that build"
+                                 % (b, s[1].get("crashes", 0), s[1].get("done", 0)))
 
     # ---- 3. code -> spec
     lines, per_line, st = judge(cases, logs, pid + "_trace")
